@@ -9,7 +9,8 @@ ONLY = r'^(A|F|B|C|D|E|H|L|SP|PC|F-low-nibble|memory|IME|EI-latch|IE-IF-untouche
 def main(tier):
     ck = cpu_check('C01', tier)
     ck.stubs_used.append('memory.Mapper -> flat 64 KiB array with access log (stubs/flatmapper)')
-    jobs = [('cpu', 'VerifInstr', {'op': o, 'cb': 0}) for o in BASE_OPS] + [('cpu', 'VerifInstr', {'op': o, 'cb': 1}) for o in range(256)]
+    jobs = [('cpu', 'VerifInstr', {'op': o, 'cb': 0}) for o in BASE_OPS] + [('cpu', 'VerifInstr', {'op': o, 'cb': 1}) for o in range(256)] + \
+        [('cpu', 'VerifInstrAfter', {'op': o, 'cb': 0}) for o in BASE_OPS] + [('cpu', 'VerifInstrAfter', {'op': o, 'cb': 1}) for o in range(256)]
     ck.bounds = {'configurations': '245 defined base opcodes + 256 CB opcodes, one query group each',
                  'values': 'width-complete: A,B,C,D,E,H,L,F(high nibble),SP,PC, IE, IF, IME and the whole 64 KiB memory (operand bytes included) symbolic',
                  'unwind': 'at most 7 machine cycles per instruction (not reaching the boundary fails the cycle assertion)',
